@@ -68,6 +68,7 @@ type fakeRegion struct {
 	s                         *simrt.Sim
 	region                    string
 	arn                       string
+	alias                     string // another identifier of the same master key (alias ARN, bare key id) the node accepts
 	master                    []byte
 	failGen, failEnc, failDec bool
 	wrongPlain                bool
@@ -106,7 +107,7 @@ func (f *fakeRegion) knows(keyID *string, required bool) error {
 		}
 		return nil
 	}
-	if *keyID != f.arn {
+	if *keyID != f.arn && (f.alias == "" || *keyID != f.alias) {
 		f.wrongKey++
 		if required {
 			return errors.New("NotFoundException: key " + *keyID + " does not exist in " + f.region)
@@ -324,6 +325,20 @@ func runC17(t *simrt.Tape, o Opts) Outcome {
 		for _, r := range regions {
 			arn[r] = "arn:aws:kms:" + r + ":111122223333:key/" + r
 		}
+		// the configuration may name the master keys by alias ARN or bare key id (all valid KeyId values);
+		// the service reports the key ARN in its responses whatever the request named
+		keyARN := map[string]string{}
+		byAlias := !swept && t.Choose(5, "keys-configured-by-alias") == 1
+		for _, r := range regions {
+			keyARN[r] = arn[r]
+			if byAlias {
+				if t.Choose(2, "alias.kind") == 0 {
+					arn[r] = "arn:aws:kms:" + r + ":111122223333:alias/asherah"
+				} else {
+					arn[r] = "1234abcd-12ab-34cd-56ef-" + r
+				}
+			}
+		}
 		var log []string
 		var handed [][]byte
 		mkNodes := func() map[string]*fakeRegion {
@@ -333,9 +348,15 @@ func runC17(t *simrt.Tape, o Opts) Outcome {
 				for k := range mk {
 					mk[k] = byte(i*37 + k)
 				}
-				m[r] = &fakeRegion{s: s, region: r, arn: arn[r], master: mk, log: &log, handed: &handed, rnd: rnd}
+				m[r] = &fakeRegion{s: s, region: r, arn: keyARN[r], master: mk, log: &log, handed: &handed, rnd: rnd}
+				if byAlias {
+					m[r].alias = arn[r]
+				}
 			}
 			return m
+		}
+		if byAlias {
+			st.Faults["config.master-keys-named-by-alias"]++
 		}
 		crypto := &flakyAEAD{AEAD: aead.NewAES256GCM()}
 		// the AWS configuration handed to the v2 builder may already carry a region (AWS_REGION set,
@@ -498,11 +519,27 @@ func runC17(t *simrt.Tape, o Opts) Outcome {
 			}
 		}
 		var want []string
+		optional := ""
 		for i, r := range regions {
 			failing := wm>>i&1 == 1
-			if r == genRegion || !(failing && !genOnly) {
+			encryptFails := failing && !genOnly
+			if byAlias {
+				// the plugin cannot tell which configured key the data key came from, so the generating
+				// region is asked to Encrypt like the others: its entry is owed when that call works
+				// and tolerated (the generated blob) when it does not
+				if !encryptFails {
+					want = append(want, r)
+				} else if r == genRegion {
+					optional = r
+				}
+				continue
+			}
+			if r == genRegion || !encryptFails {
 				want = append(want, r)
 			}
+		}
+		if optional != "" && have[optional] == 1 {
+			want = append(want, optional)
 		}
 		var got []string
 		var haveKeys []string
